@@ -37,7 +37,9 @@ def keep(r):
         return "-r4m" in name
     if sel == "round5":
         return "-r5m" in name
-    return not name.startswith("refactor-") and not any(t in name for t in ("-r2m", "-r3m", "-r4m", "-r5m"))
+    if sel == "round6":
+        return "-r6m" in name
+    return not name.startswith("refactor-") and not any(t in name for t in ("-r2m", "-r3m", "-r4m", "-r5m", "-r6m"))
 if sel == "refactor":
     print("| refactoring | change (behaviour preserving; the suite passes) | checks that raise an alarm |")
 else:
